@@ -691,6 +691,170 @@ func (e *c19Env) request() {
 	}
 }
 
+
+// overlapMethods: handlers that work on the wallet in use (the removal of that wallet unsets it).
+var c19OverlapMethods = []string{"GetWalletBalance", "GetAddressBalance", "GetUtxo", "GetAddresses", "TxHistory", "GetStakingHistory", "GetBindingHistory",
+	"AutoCreateTransaction", "CreateRawTransaction", "CreateStakingTransaction", "CreateBindingTransaction", "GetTransactionFee", "SignRawTransaction",
+	"CreateAddress", "ExportWallet", "GetWalletMnemonic", "CreatePoolPkCoinbaseTransaction"}
+
+// overlap parks a valid request on the wallet in use in front of one of its own database reads
+// (wallet-database interposer, as C17 does) and lets the background removal of that very wallet run
+// to its end meanwhile - its last round unsets the wallet in use and drops its keystore from memory -
+// then releases the request. The request must answer (response or error), not panic or hang. A
+// removal that cannot be accepted while the request is parked (a lock of the request protects the
+// section) is counted, the gate is opened and the removal goes on afterwards.
+func (e *c19Env) overlap() {
+	wd := e.wd
+	t := e.t
+	if e.isHolding() {
+		return
+	}
+	// the victim is a wallet with addresses and history; it is imported again afterwards
+	var cand []int
+	for i, kk := range wd.Keys {
+		if len(kk.Std) > 0 && kk.Mnemonic != "" {
+			cand = append(cand, i)
+		}
+	}
+	if len(cand) == 0 {
+		return
+	}
+	ki := cand[e.g.r.Intn(len(cand))]
+	k := wd.Keys[ki]
+	if _, err := wd.W.W.UseWallet(k.ID); err != nil {
+		return
+	}
+	dropKey := func() { wd.Keys = append(wd.Keys[:ki:ki], wd.Keys[ki+1:]...) }
+	restore := func() {
+		// the same wallet again (id is a function of mnemonic and passphrase), its issued addresses as index hint
+		if !wd.W.WorkerIdle(60 * time.Second) {
+			return
+		}
+		sum, err := wd.W.W.ImportWalletWithMnemonic(&keystore.WalletParams{Mnemonic: k.Mnemonic, PrivatePassphrase: []byte(k.Pass), Remarks: "again",
+			ExternalIndex: uint32(len(k.Std)), AddressGapLimit: 20})
+		if err != nil || sum.WalletID != k.ID {
+			wd.Logf("re-import of %s failed: %v", k.ID[:10], err)
+			return
+		}
+		wd.Keys = append(wd.Keys, k)
+		wd.W.WorkerIdle(60 * time.Second)
+		wd.Logf("re-imported %s", k.ID[:10])
+	}
+	api := reflect.ValueOf(wd.W.API)
+	method := c19OverlapMethods[e.g.r.Intn(len(c19OverlapMethods))]
+	m := api.MethodByName(method)
+	if !m.IsValid() {
+		return
+	}
+	req := reflect.New(m.Type().In(1).Elem())
+	if !e.g.fill(req.Elem(), method, 0) {
+		return
+	}
+	e.repair(method, req.Elem())
+	desc := c19Desc(req)
+	work := func() int64 { return wd.W.DB.Seq() + wd.N.Wrap.TotalCalls() }
+	gate := &c17Gate{}
+	wd.W.DB.SetHook(gate.hook)
+	defer wd.W.DB.SetHook(nil)
+	// dry run: number of database reads of this request
+	gate.arm(1 << 30)
+	c := c19Invoke("api", method, m, []reflect.Value{reflect.ValueOf(context.Background()), req}, desc, work)
+	n, _ := gate.disarm()
+	e.calls++
+	t.Eval(1)
+	if c.Panic != "" || c.Hung || c.Both {
+		e.lastCall = "api." + method + " " + desc
+		e.violate(c)
+		return
+	}
+	if n == 0 {
+		t.Count("overlap_request_without_database_read", 1)
+		return
+	}
+	if method == "CreateAddress" || strings.HasPrefix(method, "Create") || method == "AutoCreateTransaction" {
+		e.refresh()
+	}
+	j := 1 + e.g.r.Intn(n)
+	gate.arm(j)
+	e.lastCall = fmt.Sprintf("api.%s parked at database read %d of %d while RemoveWallet(%s) runs: %s", method, j, n, k.ID, desc)
+	done := make(chan *c19Call, 1)
+	go func() {
+		done <- c19Invoke("api", method, m, []reflect.Value{reflect.ValueOf(context.Background()), req}, desc, work)
+	}()
+	select {
+	case <-gate.held:
+	case c = <-done:
+		// fewer reads than in the dry run (state changed): nothing parked
+		gate.disarm()
+		if c.Panic != "" || c.Hung || c.Both {
+			e.violate(c)
+		}
+		t.Count("overlap_request_ended_before_its_gate", 1)
+		return
+	}
+	rm := make(chan error, 1)
+	go func() { rm <- wd.W.W.RemoveWallet(k.ID, k.Pass) }()
+	accepted, completed := false, false
+	select {
+	case err := <-rm:
+		rm = nil
+		if err == nil {
+			accepted = true
+			dropKey()
+			completed = wd.W.WorkerIdle(15 * time.Second)
+		}
+	case <-time.After(2 * time.Second):
+		t.Count("overlap_removal_blocked_by_the_parked_request", 1)
+	}
+	close(gate.release)
+	c = <-done
+	gate.disarm()
+	e.calls++
+	t.Eval(1)
+	wd.Logf("overlap %s read %d/%d removal accepted=%v completed-while-parked=%v -> panic=%q err=%q", method, j, n, accepted, completed, c.Panic, firstN(c.Err, 60))
+	if completed {
+		t.Count("overlap_placements_removal_completed_while_parked", 1)
+		t.Observe("overlap_methods", method)
+		outcome := "ok"
+		if c.Err != "" {
+			outcome = "error"
+		}
+		t.Observe("overlap_outcomes", method+":"+outcome+":"+firstN(c.Err, 50))
+		t.Nontrivial(fmt.Sprintf("overlap:%s:%d/%d", method, j, n))
+	}
+	if c.Panic != "" || c.Hung || c.Both {
+		e.violate(c)
+	}
+	if rm != nil {
+		select {
+		case err := <-rm:
+			if err == nil {
+				accepted = true
+				dropKey()
+			}
+		case <-time.After(60 * time.Second):
+			t.Inconclusive("RemoveWallet did not return 60 s after the parked request was released")
+			e.abort = true
+			return
+		}
+	}
+	if !wd.W.WorkerIdle(60 * time.Second) {
+		ok, sum, full := c20Structural()
+		if ok {
+			w := wd.Witness()
+			w["goroutines"], w["dump"] = sum, full
+			t.Violate("removal-never-finishes-after-overlap", "the removal overlapped by "+e.lastCall+" never finishes; structural deadlock", w)
+		} else {
+			t.Inconclusive("removal not finished 60 s after an overlapped request")
+		}
+		e.abort = true
+		return
+	}
+	if accepted {
+		restore()
+	}
+}
+
 // repair overwrites the fields of a generated request with values that are valid for the wallet
 // in use (selecting one first if none is), so that the handlers get past their validation.
 func (e *c19Env) repair(method string, req reflect.Value) {
@@ -1196,6 +1360,13 @@ func c19Case(t *core.T, steps int) {
 			if !e.live("unconfirmed transactions") {
 				return
 			}
+		case roll < 95 && !e.isHolding():
+			// a request on the wallet in use parked at one of its database reads while that wallet is removed
+			e.overlap()
+			if !e.live("an overlapped removal") {
+				return
+			}
+			e.refresh()
 		case roll < 97:
 			// a wallet import or removal held half-way while requests go on
 			if e.isHolding() {
